@@ -289,12 +289,32 @@ def renderGenesis (g : Genesis) : Bytes :=
 /-- the text of a document (its chain id is valid UTF-8 already) -/
 def render (j : JFile) : Bytes := renderGenesis (decodeDoc j)
 
-/-! ### the parser (for exactly this layout) -/
+/-! ### the parser (for exactly this layout)
+
+Built from small parsers `Bytes → Option (value × rest)` that are STABLE: what they read does not
+depend on what follows the part of the input they needed (`Stable`, proved in `Proofs/C18.lean`), so
+that the whole document parser reads `a ++ suffix` as it reads `a` and hands `suffix` to the final
+"nothing but white space may follow" test — which is where `json.Unmarshal` refuses trailing content. -/
+
+abbrev Parser (α : Type) := Bytes → Option (α × Bytes)
+
+def Parser.pure {α : Type} (x : α) : Parser α := fun bs => some (x, bs)
+def Parser.fail {α : Type} : Parser α := fun _ => none
+def Parser.bind {α β : Type} (p : Parser α) (f : α → Parser β) : Parser β := fun bs =>
+  match p bs with
+  | none => none
+  | some (x, r) => f x r
 
 def expect : Bytes → Bytes → Option Bytes
   | [], bs => some bs
   | _ :: _, [] => none
   | l :: ls, b :: bs => if l = b then expect ls bs else none
+
+def pExpect (lit : Bytes) : Parser Unit := fun bs => (expect lit bs).map fun r => ((), r)
+
+def pByte : Parser UInt8
+  | [] => none
+  | b :: r => some (b, r)
 
 def hexVal (b : UInt8) : Option Nat :=
   let n := b.toNat
@@ -308,6 +328,22 @@ def utf8OfBmp (cp : Nat) : Bytes :=
   else if 0xD800 ≤ cp && cp ≤ 0xDFFF then replacement
   else [(0xE0 + cp / 4096).toUInt8, (0x80 + cp / 64 % 64).toUInt8, (0x80 + cp % 64).toUInt8]
 
+/-- what follows a backslash: (bytes it denotes, rest) -/
+def unescapeOne : Parser Bytes
+  | [] => none
+  | e :: rest =>
+    if e = ch 'u' then
+      match rest with
+      | h1 :: h2 :: h3 :: h4 :: rest' =>
+        match hexVal h1, hexVal h2, hexVal h3, hexVal h4 with
+        | some a, some b, some c, some d => some (utf8OfBmp (a * 4096 + b * 256 + c * 16 + d), rest')
+        | _, _, _, _ => none
+      | _ => none
+    else if e = ch '"' then some ([ch '"'], rest) else if e = ch '\\' then some ([ch '\\'], rest)
+    else if e = ch '/' then some ([ch '/'], rest) else if e = ch 'b' then some ([8], rest)
+    else if e = ch 'f' then some ([12], rest) else if e = ch 'n' then some ([10], rest)
+    else if e = ch 'r' then some ([13], rest) else if e = ch 't' then some ([9], rest) else none
+
 /-- the body of a JSON string literal up to the closing quote: (value, rest after the quote) -/
 def parseStringBody : Nat → Bytes → Bytes → Option (Bytes × Bytes)
   | 0, _, _ => none
@@ -315,33 +351,63 @@ def parseStringBody : Nat → Bytes → Bytes → Option (Bytes × Bytes)
   | fuel + 1, b :: rest, acc =>
     if b = ch '"' then some (acc.reverse, rest)
     else if b = ch '\\' then
-      match rest with
-      | e :: rest' =>
-        if e = ch 'u' then
-          match rest' with
-          | h1 :: h2 :: h3 :: h4 :: rest'' =>
-            match hexVal h1, hexVal h2, hexVal h3, hexVal h4 with
-            | some a, some b', some c, some d =>
-              parseStringBody fuel rest'' ((utf8OfBmp (a * 4096 + b' * 256 + c * 16 + d)).reverse ++ acc)
-            | _, _, _, _ => none
-          | _ => none
-        else
-          let one (v : UInt8) := parseStringBody fuel rest' (v :: acc)
-          if e = ch '"' then one (ch '"') else if e = ch '\\' then one (ch '\\') else if e = ch '/' then one (ch '/')
-          else if e = ch 'b' then one 8 else if e = ch 'f' then one 12 else if e = ch 'n' then one 10
-          else if e = ch 'r' then one 13 else if e = ch 't' then one 9 else none
-      | [] => none
+      match unescapeOne rest with
+      | some (v, rest') => parseStringBody fuel rest' (v.reverse ++ acc)
+      | none => none
     else if b.toNat < 0x20 then none          -- a control character must be escaped
     else parseStringBody fuel rest (b :: acc)
+
+def pString : Parser Bytes := fun bs => parseStringBody (bs.length + 1) bs []
 
 def isDigitB (b : UInt8) : Bool := 48 ≤ b.toNat && b.toNat ≤ 57
 
 def natOfDigits (ds : Bytes) : Nat := ds.foldl (fun n b => n * 10 + (b.toNat - 48)) 0
 
 /-- exactly `w` digits -/
-def parseFixed (w : Nat) (bs : Bytes) : Option (Nat × Bytes) :=
+def pFixed (w : Nat) : Parser Nat := fun bs =>
   let ds := bs.take w
   if ds.length = w && ds.all isDigitB then some (natOfDigits ds, bs.drop w) else none
+
+/-- the longest run of bytes satisfying `p`, which must be followed by at least one more byte -/
+def pWhile (p : UInt8 → Bool) : Parser Bytes := fun bs =>
+  if (bs.dropWhile p).isEmpty then none else some (bs.takeWhile p, bs.dropWhile p)
+
+/-- `.` and 1..9 digits, or nothing: nanoseconds -/
+def pFrac : Parser Nat
+  | [] => none
+  | b :: rest =>
+    if b = ch '.' then
+      (pWhile isDigitB).bind (fun ds =>
+        if ds.isEmpty || ds.length > 9 then Parser.fail
+        else Parser.pure (natOfDigits (ds ++ List.replicate (9 - ds.length) 48))) rest
+    else some (0, b :: rest)
+
+/-- `Z` or `±hh:mm`: zone offset in seconds -/
+def pZone : Parser Int :=
+  pByte.bind fun b =>
+    if b = ch 'Z' then Parser.pure 0
+    else if b = ch '+' || b = ch '-' then
+      (pFixed 2).bind fun zh => (pExpect [ch ':']).bind fun _ => (pFixed 2).bind fun zmn =>
+        if zh ≥ 24 || zmn ≥ 60 then Parser.fail
+        else
+          let v : Int := ((zh * 3600 + zmn * 60 : Nat) : Int)
+          Parser.pure (if b = ch '-' then -v else v)
+    else Parser.fail
+
+/-- `time.Time.UnmarshalJSON` (strict RFC 3339) on the text after the opening quote, closing quote included -/
+def pTime : Parser GoTime :=
+  (pFixed 4).bind fun y => (pExpect [ch '-']).bind fun _ => (pFixed 2).bind fun mo =>
+  (pExpect [ch '-']).bind fun _ => (pFixed 2).bind fun d => (pExpect [ch 'T']).bind fun _ =>
+  (pFixed 2).bind fun h => (pExpect [ch ':']).bind fun _ => (pFixed 2).bind fun mi =>
+  (pExpect [ch ':']).bind fun _ => (pFixed 2).bind fun s => pFrac.bind fun ns => pZone.bind fun off =>
+  (pExpect [ch '"']).bind fun _ =>
+    if mo < 1 || mo > 12 || d < 1 || d > 31 || h ≥ 24 || mi ≥ 60 || s ≥ 60 then Parser.fail
+    else Parser.pure { year := y, month := mo, day := d, hour := h, min := mi, sec := s, nsec := ns, offSec := off, locName := "" }
+
+/-- decimal without leading zero -/
+def pNat : Parser Nat :=
+  (pWhile isDigitB).bind fun ds =>
+    if ds.isEmpty || (ds.length > 1 && ds.head? == some 48) then Parser.fail else Parser.pure (natOfDigits ds)
 
 def b64Val (b : UInt8) : Option Nat :=
   let n := b.toNat
@@ -370,69 +436,37 @@ def unbase64 : Bytes → Option Bytes
     | _, _, _, _, _ => none
   | _ => none
 
-/-- `time.Time.UnmarshalJSON` (strict RFC 3339) on the text after the opening quote: (time, rest after the closing quote) -/
-def parseTime (bs : Bytes) : Option (GoTime × Bytes) := do
-  let (y, bs) ← parseFixed 4 bs
-  let bs ← expect [ch '-'] bs
-  let (mo, bs) ← parseFixed 2 bs
-  let bs ← expect [ch '-'] bs
-  let (d, bs) ← parseFixed 2 bs
-  let bs ← expect [ch 'T'] bs
-  let (h, bs) ← parseFixed 2 bs
-  let bs ← expect [ch ':'] bs
-  let (mi, bs) ← parseFixed 2 bs
-  let bs ← expect [ch ':'] bs
-  let (s, bs) ← parseFixed 2 bs
-  let (ns, bs) ← (match bs with
-    | b :: rest =>
-      if b = ch '.' then
-        let ds := rest.takeWhile isDigitB
-        if ds.isEmpty || ds.length > 9 then none
-        else some (natOfDigits (ds ++ List.replicate (9 - ds.length) 48), rest.dropWhile isDigitB)
-      else some (0, bs)
-    | [] => none)
-  let (off, bs) ← (match bs with
-    | b :: rest =>
-      if b = ch 'Z' then some ((0 : Int), rest)
-      else if b = ch '+' || b = ch '-' then do
-        let (zh, r) ← parseFixed 2 rest
-        let r ← expect [ch ':'] r
-        let (zmn, r) ← parseFixed 2 r
-        if zh ≥ 24 || zmn ≥ 60 then none
-        else
-          let v : Int := ((zh * 3600 + zmn * 60 : Nat) : Int)
-          some (if b = ch '-' then -v else v, r)
-      else none
-    | [] => none)
-  let bs ← expect [ch '"'] bs
-  if mo < 1 || mo > 12 || d < 1 || d > 31 || h ≥ 24 || mi ≥ 60 || s ≥ 60 then none
-  else some ({ year := y, month := mo, day := d, hour := h, min := mi, sec := s, nsec := ns, offSec := off, locName := "" }, bs)
+/-- `null` or a base64 string literal -/
+def pProposer : Parser (Option Bytes)
+  | [] => none
+  | b :: rest =>
+    if b = ch '"' then
+      ((pWhile (· ≠ ch '"')).bind fun body => pByte.bind fun _ =>
+        match unbase64 body with
+        | some v => Parser.pure (some v)
+        | none => Parser.fail) rest
+    else (pExpect (str "null")).bind (fun _ => Parser.pure none) (b :: rest)
+
+/-- the document, up to and including the closing brace -/
+def pDocument : Parser JFile :=
+  (pExpect (str "{\n  \"chain_id\": \"")).bind fun _ => pString.bind fun cid =>
+  (pExpect (str ",\n  \"genesis_da_start_height\": \"")).bind fun _ => pTime.bind fun t =>
+  (pExpect (str ",\n  \"initial_height\": ")).bind fun _ => pNat.bind fun ih =>
+  (pExpect (str ",\n  \"proposer_address\": ")).bind fun _ => pProposer.bind fun p =>
+  (pExpect (str "\n}")).bind fun _ =>
+    Parser.pure { chainId := cid, time := t, initialHeight := ih, proposer := p }
 
 def isJsonSpace (b : UInt8) : Bool := b = 32 || b = 9 || b = 10 || b = 13
 
-/-- `json.Unmarshal` of a file in the layout `render` produces -/
-def parse (bs : Bytes) : Option JFile := do
-  let bs ← expect (str "{\n  \"chain_id\": \"") bs
-  let (cid, bs) ← parseStringBody (bs.length + 1) bs []
-  let bs ← expect (str ",\n  \"genesis_da_start_height\": \"") bs
-  let (t, bs) ← parseTime bs
-  let bs ← expect (str ",\n  \"initial_height\": ") bs
-  let ds := bs.takeWhile isDigitB
-  let bs := bs.dropWhile isDigitB
-  if ds.isEmpty || (ds.length > 1 && ds.head? == some 48) then none else
-  let bs ← expect (str ",\n  \"proposer_address\": ") bs
-  let (p, bs) ← (match expect (str "null") bs with
-    | some r => some (none, r)
-    | none => do
-      let r ← expect [ch '"'] bs
-      let body := r.takeWhile (· ≠ ch '"')
-      let r ← expect [ch '"'] (r.dropWhile (· ≠ ch '"'))
-      let v ← unbase64 body
-      some (some v, r))
-  let bs ← expect (str "\n}") bs
-  if bs.all isJsonSpace then
-    some { chainId := cid, time := t, initialHeight := natOfDigits ds, proposer := p }
-  else none    -- "invalid character … after top-level value"
+/-- `json.Unmarshal` of a file in the layout `render` produces: ONE document, then nothing but
+white space ("invalid character … after top-level value" otherwise) -/
+def parse (bs : Bytes) : Option JFile :=
+  match pDocument bs with
+  | some (j, rest) => if rest.all isJsonSpace then some j else none
+  | none => none
+
+/-- a decoder that stops after the first document (`json.NewDecoder(f).Decode`): what follows is not looked at -/
+def parseFirst (bs : Bytes) : Option JFile := (pDocument bs).map (·.1)
 
 /-- parser ∘ printer gives the document the values denote: decidable, evaluated by the driver for
 every genesis it writes (the model LOADS by parsing the bytes it rendered), not proved for all -/
